@@ -481,7 +481,7 @@ class Renderer:
             self.gap("opt", want_space=True)
             self.tok("=")
             self.gap("opt", want_space=True)
-            self.expr(("bin", "+", ("pc",), ("num", s.delta, None)), s.scope)
+            self.expr(("bin", "+" if s.delta >= 0 else "-", ("pc",), ("num", abs(s.delta), None)), s.scope)
         elif k == "testraw":
             self.tok(".test", "dir")
             self.gap("sp")
